@@ -196,7 +196,7 @@ class World:
         elif act == "SetVal":
             d = self.ent(a["s"])
             new = self.values(a["v"], self.n_values(d.parent))
-            if self.variant % 2 and d.values is not None:   # edit the array the getter returned, in place, assign it back
+            if self.variant % 4 and d.values is not None:   # edit the array the getter returned, in place, assign it back
                 arr = d.values
                 arr[:] = new
                 d.values = arr
